@@ -400,6 +400,7 @@ def nograd_eval(repo):
     if not fwd:
         return [unrecognised("R-NOGRAD", f, role, "no model(...) call in predict")]
     bad = []
+    infer = []
     for c in fwd:
         ok = False
         n = c
@@ -408,15 +409,22 @@ def nograd_eval(repo):
             if isinstance(n, ast.With):
                 for it in n.items:
                     d = dotted(it.context_expr.func) if isinstance(it.context_expr, ast.Call) else None
-                    if d in ("torch.no_grad", "torch.inference_mode"):
+                    if d == "torch.no_grad":
                         ok = True
+                    if d == "torch.inference_mode":
+                        infer.append(c)
                     if d in ("torch.set_grad_enabled", "torch.autograd.set_grad_enabled") and \
                             const_value(it.context_expr.args[0] if it.context_expr.args else None) is False:
                         ok = True
         if not ok:
             bad.append(c)
-    out.append(violation("R-NOGRAD", f, role, "`%s` runs with autograd enabled" % unparse(bad[0])[:50], bad[0]) if bad else
-               holds("R-NOGRAD", f, role, "%d forward call(s), all lexically inside no_grad" % len(fwd), fwd[0]))
+    if infer:
+        out.append(named("R-NOGRAD", f, role, "`%s` runs under torch.inference_mode(): every tensor the model creates and keeps during that forward (a lazily "
+                         "built mask / positional table) is an inference tensor and makes a later ordinary backward() on the same model raise - "
+                         "no_grad() does not have that after-effect" % unparse(infer[0])[:50], infer[0]))
+    else:
+        out.append(violation("R-NOGRAD", f, role, "`%s` runs with autograd enabled" % unparse(bad[0])[:50], bad[0]) if bad else
+                   holds("R-NOGRAD", f, role, "%d forward call(s), all lexically inside no_grad" % len(fwd), fwd[0]))
     out += eval_rule(repo, "predict.predict")
     return out
 
